@@ -310,9 +310,16 @@ class Sim(object):
             self._rr += 1
             order = sorted(nodes, key=lambda n: n.name)
             return order[self._rr % len(order)]
-        if self.policy in ('starve0', 'starve1'):
-            starved = names[0] if self.policy == 'starve0' else names[min(1, len(names) - 1)]
+        if self.policy in ('starve0', 'starve1', 'hold0', 'hold1'):
+            starved = names[0] if self.policy in ('starve0', 'hold0') else names[min(1, len(names) - 1)]
             others = [node for node in nodes if node.name != starved]
+            # (hold: that node's loop gets one turn per 300 turns of the others, or when nobody else has anything to do -- a process
+            # that is descheduled for a while again and again; never for ever, which no real scheduler does)
+            if self.policy.startswith('hold'):
+                self._held = getattr(self, '_held', 0) + 1
+                if others and self._held % 300:
+                    return rng.choice(others)
+                return next((node for node in nodes if node.name == starved), rng.choice(nodes))
             if others and rng.random() < 0.92:
                 return rng.choice(others)
             return rng.choice(nodes)
